@@ -12,6 +12,7 @@ import (
 	"github.com/hashicorp/consul/internal/verifmc/c03"
 	"github.com/hashicorp/consul/internal/verifmc/c04"
 	"github.com/hashicorp/consul/internal/verifmc/c05"
+	"github.com/hashicorp/consul/internal/verifmc/c06"
 	"github.com/hashicorp/consul/internal/verifmc/c07"
 	"github.com/hashicorp/consul/internal/verifmc/c10"
 	"github.com/hashicorp/consul/internal/verifmc/ev"
@@ -28,6 +29,7 @@ var checks = map[string]checkDef{
 	"C03": {"model_checking", c03.Run},
 	"C04": {"model_checking", c04.Run},
 	"C05": {"model_checking", c05.Run},
+	"C06": {"model_checking", c06.Run},
 	"C07": {"model_checking", c07.Run},
 	"C10": {"exploration", c10.Run},
 }
